@@ -8,7 +8,8 @@ PROP = "C05"
 RUNNER = ("RunC05", "run_C05")
 COQ_TARGETS = ["theories/RunC05.vo"]
 AUTHORITY = ("C05_* (coq/props/C05.v): the model's Solution has the objective's value, every active and removed constraint "
-             "once with value/equality/metadata/reason, flags = all-hold, completed state; rejection exactly by the listed causes")
+             "once with value/equality/metadata/reason, flags = all-hold, completed state; rejection exactly by the listed causes "
+             "(C05_succeeds_iff: evaluation returns a solution <=> eval_ok, seven explicit conditions with a proved decision procedure)")
 RULE = ("random valid instances (all kinds, absent/finite/half-infinite/infinite bounds, 0-3 active and 0-2 removed constraints "
         "with metadata, absent/constant/unset functions, dependencies, irrelevant and substituted variables, non-contiguous ids) "
         "x states: in-bound; out of bound by 2^-20 (rejected) and 2^-30 (accepted) on a random variable; exactly at / one ulp "
